@@ -66,7 +66,9 @@ def build(rnd):
         resp.append({"body": [rnd.choice([0, 1, 7, 500, 9000, 40000, 70000]) for _ in range(rnd.choice([0, 1, 1, 2, 3]))],
                      "trailers": rnd.random() < 0.2, "reset": rnd.random() < 0.12, "status": rnd.choice([200, 200, 404, 204]),
                      # the server starts answering only this many steps after it has the complete request
-                     "delay": rnd.choice([0, 0, 0, 1, 3, 6])})
+                     "delay": rnd.choice([0, 0, 0, 1, 3, 6]),
+                     # the server answers as soon as it has the request headers (only meaningful for streamed requests)
+                     "early": rnd.random() < 0.3})
     client_win = rnd.choice([None, None, 10, 100, 1000, 20000])
     server_win = rnd.choice([None, None, None, 7, 300, 20000])
     # bodies stay within ~40 windows so that a case needs a bounded number of WINDOW_UPDATE round trips
@@ -88,6 +90,8 @@ def build(rnd):
         "cuts": [rnd.choice([1, 2, 9, 10, 17, 100, 1000, 70000]) for _ in range(12)],
         "serve_order": [rnd.random() for _ in range(n)], "serve_interleave": rnd.random() < 0.6,
         "pump_every": rnd.choice([1, 1, 2, 4]),
+        # an addon enables request streaming at requestheaders: request bodies are forwarded while they arrive
+        "stream_req": rnd.random() < 0.3,
     }
 
 
@@ -121,6 +125,8 @@ class World:
         if f is not None and hasattr(f, "request"):
             self.hooks.append((hook.name, f.request.path))
             self.flows[f.request.path] = f
+            if hook.name == "requestheaders" and self.case.get("stream_req"):
+                f.request.stream = True
 
     def on_open(self, conn):
         conn.alpn = b"h2"
@@ -241,12 +247,10 @@ def run_case(case):
                 t = tag_of(p, s)
                 if t is None or rec.headers is None or rec.reset is not None:
                     continue
-                if not rec.ended and not final:
-                    continue
-                if not rec.ended:
+                r = case["resp"][t % n]
+                if not rec.ended and not (case.get("stream_req") and r.get("early")):
                     continue
                 prog = served.get((conn, s), 0)
-                r = case["resp"][t % n]
                 if not final and step - first_ready.setdefault((conn, s), step) < r.get("delay", 0):
                     continue
                 total = 2 + len(r["body"])
@@ -402,6 +406,8 @@ def check_case(case, ctx):
     waited = case["limit"] < len(opened)
     if interleaved or waited or reset_by_client:
         ctx.cls("windows client=%s server=%s" % (case.get("client_win"), case.get("server_win")))
+        if case.get("stream_req"):
+            ctx.cls("streamed requests" + (" with early answers" if any(r.get("early") for r in case["resp"]) else ""))
         ctx.nt((case["limit"], case.get("server_lazy"), case.get("client_lazy"), case.get("client_win"), case.get("server_win"), tuple((a[0], a[1]) for a in case["client_acts"]), tuple(case["cuts"])),
                "limit=%s" % case["limit"])
     if c.error is not None:
@@ -431,6 +437,9 @@ def check_case(case, ctx):
                 ctx.fail("upstream-body-foreign-bytes", "tag %d body has %r" % (t, bytes(set(rec.data))))
             if t in complete and rec.ended and rec.data != sent_body[t]:
                 ctx.fail("upstream-body-differs", "tag %d: sent %d bytes, server got %d" % (t, len(sent_body[t]), len(rec.data)))
+            if t in complete and not rec.ended and rec.reset is None and not case["resp"][t % n]["reset"]:
+                ctx.fail("upstream-request-incomplete", "tag %d: the client finished its request (%d bytes) but the server stream never ended (%d bytes arrived)"
+                         % (t, len(sent_body[t]), len(rec.data)))
             if rec.trailers is not None and rec.trailers != [(b"x-trail", b"%d" % t)]:
                 ctx.fail("upstream-trailers-foreign", "tag %d trailers %r" % (t, rec.trailers))
             if t in complete and case["streams"][t]["trailers"] and rec.ended and rec.trailers is None:
@@ -441,7 +450,9 @@ def check_case(case, ctx):
         if t not in seen_tags:
             ctx.fail("upstream-stream-lost", "client stream with tag %d completed its request but never reached the server (limit %d)" % (t, case["limit"]))
     # queue order: server stream ids increase in the order the requests became ready (request hook order)
-    ready = [int(p[2:]) for name, p in w.hooks if name == "request" and p.startswith("/s")]
+    # (a streamed request is opened upstream when its headers are ready, a buffered one when it is complete)
+    ready_hook = "requestheaders" if case.get("stream_req") else "request"
+    ready = [int(p[2:]) for name, p in w.hooks if name == ready_hook and p.startswith("/s")]
     fw = [t for t in ready if t in seen_tags]
     ids = [seen_tags[t] for t in fw]
     if ids != sorted(ids):
